@@ -205,8 +205,9 @@ func (l *loggingDest) Chmod(name string, mode hackpadfs.FileMode) error {
 }
 
 // yieldingHook yields the processor at transaction boundaries and store calls.
-func yieldingHook(r *rand.Rand) kvs.Hook {
+func yieldingHook(parent *rand.Rand) kvs.Hook {
 	var mu sync.Mutex
+	r := rand.New(rand.NewSource(parent.Int63())) // its own generator: writers of an earlier unpacking may still be running
 	return func(kvs.Event) error {
 		mu.Lock()
 		n := r.Intn(4)
